@@ -4,6 +4,7 @@ import Fabio.Model.Route
 import Fabio.Model.Parse
 import Fabio.Model.C05Spec
 import Fabio.Model.C05Glue
+import Fabio.Model.C05Lang
 /-!
 Driver handlers for C05. `agree` compares the model (`Model/Route.lean`, `Model/Parse.lean`) with the real code;
 `spec` evaluates the property's sentences on the implementation's own output: the table must be the one the
@@ -233,9 +234,17 @@ def scriptH : Handler := fun inp impl => do
   let okText := match impl.getObjVal? "viaText" with
     | .ok d => sameOutcome d impl
     | .error _ => true
+  -- the text the harness wrote for the commands is the model writer's text (`Model/C05Lang.lean`)
+  let wtexts : List Str := match (match impl.getObjVal? "defs" with | .ok _ => impl | .error _ => inp).getObjValAs? (Array Json) "defs" with
+    | .ok a => a.toList.map (fun j => getStrD j "wtext")
+    | .error _ => []
+  let okWriter := match impl.getObjValAs? String "viaTextSrc" with
+    | .ok src => src.toList == Fabio.Model.C05Lang.scriptText (wtexts.zip (defs.map (·.d)))
+    | .error _ => true
+  let agree := agree && okWriter
   let tag := if !okSpec then tag ++ "/spec-machine" else if !okDup then tag ++ "/add-not-idempotent"
     else if !okCase then tag ++ "/host-case-sensitive" else if !okDerived then tag ++ "/derived-fields"
-    else if !okText then tag ++ "/text-differs-from-commands" else tag
+    else if !okText then tag ++ "/text-differs-from-commands" else if !okWriter then tag ++ "/writer-differs" else tag
   return ({ model := m, agree, spec := okSpec && okDup && okCase && okDerived && okText,
             nontrivial := (res.toOption.map (fun t => !t.isEmpty)).getD false, tag } : Verdict).toJson
 
